@@ -208,7 +208,8 @@ Pick(S) == IF Sim /\ S # {} THEN {RandomElement(S)} ELSE S
 \* Lexical layer: the terminals "1", "1.5" and "\"s\"" of the productions stand for the literal CLASSES; every spelling of a
 \* class is the same token to the grammar.  The replay renders the canonical spelling in the plain layouts and a seeded
 \* member of the class in the third one.  (String lexemes: escapes \\ \" \n \t \u{..}, an escaped backslash right before
-\* the closing quote, comment openers inside a string, a line break inside a string.)
+\* the closing quote, comment openers inside a string, a line break inside a string; the replay adds members with
+\* non-ASCII characters, which TLC cannot print.)
 LiteralSpellings ==
   [int   |-> <<"1", "1_000", "0xFF", "0b101", "0o17", "007">>,
    float |-> <<"1.5", "1.0e3", "1.5e-3", "1_0.5", "0.0">>,
